@@ -139,7 +139,7 @@ static void gen_ple(opcase_t *c, rng_t *r, int maxdim) {
   if (v == P_PLE_NAIVE || v == P_PLUQ_NAIVE) md = maxdim < 300 ? maxdim : 300;
   /* shapes straddling the base-case / recursion boundary of this build */
   if ((v == P_PLE || v == P_PLUQ || v == P__PLE || v == P__PLUQ) && rng_chance(r, 1, 3)) {
-    long cut = __M4RI_PLE_CUTOFF;
+    long cut = GC.ple_cutoff;
     n = 65 + rng_int(r, 0, md > 66 ? md - 66 : 0);
     long w = (n + 63) / 64;
     long mb = cut / w;
@@ -282,22 +282,24 @@ static uint64_t canon_ple(opcase_t *c) {
 enum { T_UL, T_LL, T_UR, T_LR, T__UL, T__LL, T__UR, T__LR, T_TRTRI };
 static void gen_trsm(opcase_t *c, rng_t *r, int maxdim) {
   int v = c->op->variant;
-  int sp[] = {__M4RI_MUL_BLOCKSIZE - 1, __M4RI_MUL_BLOCKSIZE, __M4RI_MUL_BLOCKSIZE + 1, 2 * __M4RI_MUL_BLOCKSIZE + 3, 64, 65, 128, 129, 63, 127};
+  int sp[] = {GC.mul_block - 1, GC.mul_block, GC.mul_block + 1, 2 * GC.mul_block + 3, 64, 65, 128, 129, 63, 127};
   int n = gen_dim_sp(r, sp, 10, maxdim);
   if (v == T_TRTRI) {
     /* recursion threshold of trtri: n*n >= 2*L3 */
     int thr = 1;
-    while ((long)thr * thr < 2L * __M4RI_CPU_L3_CACHE) thr++;
+    while ((long)thr * thr < 2L * GC.l3) thr++;
+    int thr_here = 1;
+    while ((long)thr_here * thr_here < 2L * __M4RI_CPU_L3_CACHE) thr_here++;
     int sp2[] = {thr - 1, thr, thr + 1, thr + 63, thr + 64, thr + 130, 64, 65, 128, 256, 257};
     n = gen_dim_sp(r, sp2, 11, maxdim);
     int sparse = rng_chance(r, 1, 4);
     rm_t *J = gen_tri_junk(r, n, 0, sparse);
     c->in[0] = rm_unit_tri(J, 0); /* a genuine unit upper triangular matrix */
     rm_free(J);
-    snprintf(c->pcls, sizeof c->pcls, "%s", n >= thr ? "recursive" : "base");
+    snprintf(c->pcls, sizeof c->pcls, "%s", n >= thr_here ? "recursive" : "base");
     snprintf(c->desc, sizeof c->desc, "n=%d sparse=%d", n, sparse);
     hx_cls("%s:%s:%c%c:%d", c->op->name, c->pcls, dimcls(n), modcls(n), sparse);
-    if (n >= thr) hx_tag("trtri_recursive");
+    if (n >= thr_here) hx_tag("trtri_recursive");
     c->nontrivial = n > 1;
     return;
   }
